@@ -286,6 +286,9 @@ pub fn run(tier: Tier) -> i32 {
                 if src.starts_with(&plain) && src.len() < 300_000 {
                     let rest = &src[plain.len()..];
                     progs.push((format!("{}+device-in-macro", way), format!(".macro board_setup\n.device {}\n.endm\nboard_setup\n{}", name, rest), ramf));
+                    // the device named at the very end: a program is assembled for the device it
+                    // selects, wherever the line stands
+                    progs.push((format!("{}+device-last", way), format!("{}{}", rest, plain), ramf));
                     progs.push((format!("{}+device-in-conditional", way), format!(".if 1\n.device {}\n.else\n.device ATmega2560\n.endif\n{}", name, rest), ramf));
                     // .csegsize repartitions the AT94K only: before or after the .device line of any
                     // other part it changes nothing
